@@ -1,5 +1,6 @@
 import Pcore.Proofs.LoaderSeq
 import Pcore.Proofs.LoaderTS
+import Pcore.Proofs.LoaderDep
 /-!
 # C12 — Loader resolution: parents first, bindings are write-once, misses are not sticky
 
@@ -39,9 +40,21 @@ Full statement / proved / missing
   `C12_ts_has` — HasEntry is `tsResolve ≠ none`, unconditionally; `C12_ts_lookups_pure` — lookups through the leaf change
   no binding; `C12_ts_define` — a definition through the leaf is the definition in its parent (so C12_writeonce /
   C12_redefine apply there); `C12_ts_other` — every other loader behaves as without type-set leaves.              proved
-* missing / outside the model: type-set loaders with children or references, the dependency and file-based loaders (C15);
-  `strings.ToLower` beyond ASCII; the static loader level (assumed disjoint from the names used, checked by the
-  harness per line).  Tie: differential execution of whole histories (harness/c12).
+* dependency loaders as roots over plain module loaders (`Model/LoaderDep.lean`, `stepD`): `C12_dep_load_refines` — a lookup
+  through a chain rooted in a dependency loader is the LAZY BINDING of the name in that root (`fillD`, characterised by
+  `C12_dep_fill`) followed by the plain lookup, so it answers `resolve` on the filled state (`C12_dep_load`);
+  `C12_dep_first` — the first lookup answers the binding of the first loader in dependency order that binds the name (the
+  named module for a qualified name) and binds it; `C12_dep_cached`, `C12_dep_stable`, `C12_dep_stable_chain` — what was
+  answered once is answered ever after; `C12_dep_writeonce(_run)`; `C12_dep_invalid_name` — reported error, no trace;
+  `C12_dep_queries`, `C12_dep_other`, `C12_dep_wf_run`, `C12_dep_discover` — everything else is the plain model;
+  `C12_dep_miss_then_define_partial` — miss, then definition in the dependency loader: resolvable.                  proved
+  FULL statement `C12_dep_load_full` (a lookup answers what the dependencies bind whenever the dependency loader holds no
+  value, in every reachable state) is FALSE: `C12_dep_miss_sticky` (known finding C12-dependency-miss-sticky); so is
+  "discovery = union over the dependencies" (`C12_dep_discover_union_full`, `C12_dep_discover_unloaded`).
+* missing / outside the model: type-set loaders with children or references or beside dependency loaders, dependency
+  loaders over anything but plain loaders, file-based loaders (C15); `strings.ToLower` beyond ASCII; the static loader
+  level (assumed disjoint from the names used, checked by the harness per line).  Tie: differential execution of whole
+  histories (harness/c12).
 -/
 namespace Pcore.LoaderSeq
 
@@ -305,6 +318,263 @@ theorem C12_ts_member_shadows :
     let s := (runT demoTss (Sys.init [none, some 0, some 1]) [.define 0 nFoo (.ty 7)]).1
     (stepT demoTss s (.load 2 nFoo)).2 = .found (.al "My::Foo" 1) ∧
     tsResolve s 2 demoTS nFoo (segsOf nFoo) = some (.ty 7) := by decide +kernel
+
+/-! ### dependency loaders (`Model/LoaderDep.lean`, `stepD`)
+
+A dependency loader `d` over the modules `mods` is a root of the hierarchy.  Its own bindings are made LAZILY: the first
+lookup of a name that reaches it binds the name in `d` to what the dependencies bind (`depSpec`: the module a qualified
+name names by its first segment, otherwise the first module in dependency order that resolves it) — or caches the miss.
+From then on the hierarchy behaves as `LoaderSeq` says (`C12_dep_load_refines`), so every theorem above applies to the
+state `fillD … s l n` the lazy binding leaves. -/
+
+attribute [local irreducible] canon
+
+/-- REFINEMENT: a lookup through a chain rooted in a dependency loader is the lazy binding in that root followed by the
+    plain parent-first lookup of `LoaderSeq` -/
+theorem C12_dep_load_refines (dps : List (Option Mods)) (s : Sys) (l d : Nat) (mods : Mods) (n : Name)
+    (hc : DepChain dps (chain s.ps l) d mods) (hlen : d < s.es.length) (ha : n.auth = runtimeAuthority)
+    (hp : PartsOK mods n) : stepD dps s (.load l n) = step (fillD dps s l n) (.load l n) :=
+  loadD_root dps s l d mods n hc hlen ha (depLoadEntry_ne_bad s d mods n hp)
+
+/-- what the lazy binding binds: the name asked for, in the dependency loader, to what the dependencies bind — and only
+    if the dependency loader held no entry for it; every other binding of every loader is as before -/
+theorem C12_dep_fill (dps : List (Option Mods)) (s : Sys) (l d : Nat) (mods : Mods) (n : Name)
+    (hc : DepChain dps (chain s.ps l) d mods) (hlen : d < s.es.length) (hp : PartsOK mods n) (l' : Nat) (k' : Key) :
+    bound (fillD dps s l n) l' k' =
+      if l' = d ∧ k' = canon n ∧ lk (canon n) (s.ents d) = none then depSpec s mods n else bound s l' k' := by
+  rw [fillD_eq dps s l d mods n hc hlen]
+  exact depLoadEntry_bound s d mods n hlen hp l' k'
+
+/-- … hence the lookup answers the binding of the outermost ancestor — the dependency loader with its lazy binding
+    included — that has one, otherwise the loader's own, otherwise not-found -/
+theorem C12_dep_load (dps : List (Option Mods)) (s : Sys) (l d : Nat) (mods : Mods) (n : Name)
+    (hc : DepChain dps (chain s.ps l) d mods) (hlen : d < s.es.length) (ha : n.auth = runtimeAuthority)
+    (hp : PartsOK mods n) :
+    (stepD dps s (.load l n)).2 = ansOf (resolve (fillD dps s l n) l (canon n)) := by
+  rw [C12_dep_load_refines dps s l d mods n hc hlen ha hp]
+  exact C12_load _ l n ha
+
+theorem depChain_root (dps : List (Option Mods)) (s : Sys) (d : Nat) (mods : Mods) (hr : s.ps.getD d none = none)
+    (hd : dps.getD d none = some mods) : DepChain dps (chain s.ps d) d mods := by
+  rw [chain_root s.ps d hr]
+  exact ⟨rfl, by simp, hd⟩
+
+/-- the FIRST lookup of a name through the dependency loader itself answers the binding of the first loader in dependency
+    order that binds the name (the named module for a qualified name), and binds the name to it in the dependency loader -/
+theorem C12_dep_first (dps : List (Option Mods)) (s : Sys) (d : Nat) (mods : Mods) (n : Name)
+    (hr : s.ps.getD d none = none) (hd : dps.getD d none = some mods) (hlen : d < s.es.length)
+    (ha : n.auth = runtimeAuthority) (hp : PartsOK mods n) (hfresh : lk (canon n) (s.ents d) = none) :
+    (stepD dps s (.load d n)).2 = ansOf (depSpec s mods n) ∧
+    bound (stepD dps s (.load d n)).1 d (canon n) = depSpec s mods n := by
+  have hc := depChain_root dps s d mods hr hd
+  have hfill := C12_dep_fill dps s d d mods n hc hlen hp d (canon n)
+  simp only [hfresh, and_self, if_true] at hfill
+  constructor
+  · rw [C12_dep_load dps s d d mods n hc hlen ha hp]
+    congr 1
+    unfold resolve
+    have : (fillD dps s d n).ps = s.ps := by simp [fillD]
+    rw [this, chain_root s.ps d hr]
+    simp only [List.reverse_cons, List.reverse_nil, List.nil_append, List.findSome?_cons, List.findSome?_nil, hfill]
+    cases depSpec s mods n <;> rfl
+  · rw [C12_dep_load_refines dps s d d mods n hc hlen ha hp]
+    rw [(C12_lookups_pure _ (.load d n) (by intro _ _ _ h; cases h) d (canon n)).1]
+    exact hfill
+
+/-- once the dependency loader holds a binding it answers with it and nothing changes -/
+theorem C12_dep_cached (dps : List (Option Mods)) (s : Sys) (d : Nat) (mods : Mods) (n : Name) (v : V)
+    (hr : s.ps.getD d none = none) (hd : dps.getD d none = some mods) (ha : n.auth = runtimeAuthority)
+    (hb : bound s d (canon n) = some v) : stepD dps s (.load d n) = (s, .found v) := by
+  have hlk : lk (canon n) (s.ents d) = some (some v) := by
+    unfold bound at hb
+    cases h : lk (canon n) (s.ents d) with
+    | none => rw [h] at hb; cases hb
+    | some o =>
+      cases o with
+      | none => rw [h] at hb; cases hb
+      | some w => rw [h] at hb; simp at hb; rw [hb]
+  show loadD dps s d n = _
+  unfold loadD
+  simp only [ha, ne_eq, not_true_eq_false, if_false, chain_root s.ps d hr, loadEntryD, hd,
+    depLoadEntry_cached s d mods n _ hlk]
+
+/-- an ill-formed qualified name (a segment that is not an identifier) that the dependency loader has no entry for is
+    rejected with a reported error and leaves no trace — it is never a fault -/
+theorem C12_dep_invalid_name (dps : List (Option Mods)) (s : Sys) (l d : Nat) (mods : Mods) (n : Name)
+    (hc : DepChain dps (chain s.ps l) d mods) (hlen : d < s.es.length) (ha : n.auth = runtimeAuthority)
+    (hp : ¬ PartsOK mods n) (hfresh : lk (canon n) (s.ents d) = none) :
+    stepD dps s (.load l n) = (s, .reported "PCORE_INVALID_CHARACTERS_IN_NAME") := by
+  show loadD dps s l n = _
+  have hbad := depLoadEntry_bad_of s d mods n hfresh hp
+  have hroot := loadEntryD_root dps s (chain s.ps l).dropLast d mods n hc.2.1 hc.2.2 hlen
+  rw [← depChain_split hc, hbad] at hroot
+  unfold loadD
+  simp only [ha, ne_eq, not_true_eq_false, if_false, hroot]
+
+/-- write-once holds for every loader of a hierarchy with dependency loaders, the lazily made bindings included -/
+theorem C12_dep_writeonce (dps : List (Option Mods)) (s : Sys) (op : Op) (l : Nat) (k : Key) (v : V)
+    (h : bound s l k = some v) : bound (stepD dps s op).1 l k = some v := bound_stepD_mono dps s op l k v h
+
+theorem C12_dep_writeonce_run (dps : List (Option Mods)) (s : Sys) (ops : List Op) (l : Nat) (k : Key) (v : V)
+    (h : bound s l k = some v) : bound (runD dps s ops).1 l k = some v := bound_runD_mono dps s ops l k v h
+
+/-- what the dependency loader answered once it answers ever after — whatever the history does, in particular whatever
+    its modules and their ancestors gain later -/
+theorem C12_dep_stable (dps : List (Option Mods)) (s : Sys) (ops : List Op) (d : Nat) (mods : Mods) (n : Name) (v : V)
+    (hr : s.ps.getD d none = none) (hd : dps.getD d none = some mods) (ha : n.auth = runtimeAuthority)
+    (hb : bound s d (canon n) = some v) :
+    stepD dps (runD dps s ops).1 (.load d n) = ((runD dps s ops).1, .found v) :=
+  C12_dep_cached dps _ d mods n v (by rw [runD_ps]; exact hr) hd ha (bound_runD_mono dps s ops d (canon n) v hb)
+
+/-- stability along a chain, as `C12_stable`: as long as no proper ancestor — a dependency loader's lazy bindings count —
+    gains a binding, a name that resolved keeps resolving to the same value -/
+theorem C12_dep_stable_chain (dps : List (Option Mods)) (s : Sys) (ops : List Op) (l : Nat) (k : Key) (v : V)
+    (h : resolve s l k = some v)
+    (hanc : ∀ a ∈ ancestors s.ps l, bound s a k = none → bound (runD dps s ops).1 a k = none) :
+    resolve (runD dps s ops).1 l k = some v := by
+  unfold resolve at *
+  rw [runD_ps]
+  rw [chain_eq, List.reverse_cons] at h ⊢
+  apply findSome?_stable (fun a => bound s a k) (fun a => bound (runD dps s ops).1 a k) _ _ v h
+  · intro x _ w hw; exact bound_runD_mono dps s ops x k w hw
+  · intro x hx hn; exact hanc x (List.mem_reverse.mp hx) hn
+
+/-- every operation but `load` is the one of `LoaderSeq` whatever the hierarchy (HasEntry, GetEntry, Discover and SetEntry
+    of a dependency loader are the basic loader's): C12_has, C12_get, C12_redefine, C12_redefine_equal, C12_define_new and
+    C12_discover hold verbatim … -/
+theorem C12_dep_queries (dps : List (Option Mods)) (s : Sys) (op : Op) (h : ∀ l n, op ≠ .load l n) :
+    stepD dps s op = step s op := by
+  cases op with
+  | load l n => exact absurd rfl (h l n)
+  | define _ _ _ => rfl
+  | has _ _ => rfl
+  | get _ _ => rfl
+  | discover _ _ => rfl
+
+/-- … and on a chain without dependency loader so is `load` -/
+theorem C12_dep_other (dps : List (Option Mods)) (s : Sys) (op : Op)
+    (h : ∀ a ∈ chain s.ps op.loader, dps.getD a none = none) : stepD dps s op = step s op := stepD_plain dps s op h
+
+theorem C12_dep_wf_run (dps : List (Option Mods)) (ps : List (Option Nat)) (ops : List Op) :
+    WF (runD dps (Sys.init ps) ops).1 := WF_runD dps _ _ (WF_init ps)
+
+/-- discovery through (a descendant of) a dependency loader: sorted, duplicate free, exactly the names BOUND along the
+    chain that satisfy the predicate — for the dependency loader: the names looked up through it so far -/
+theorem C12_dep_discover (dps : List (Option Mods)) (s : Sys) (h : WF s) (l : Nat) (p : Key → Bool) :
+    ∃ ks, stepD dps s (.discover l p) = (s, .keys ks) ∧
+      ks.Pairwise (fun a b => keyLe a b = true) ∧ ks.Nodup ∧
+      ∀ k, k ∈ ks ↔ p k = true ∧ ∃ a ∈ chain s.ps l, (bound s a k).isSome = true :=
+  C12_discover s h l p
+
+/-- misses are not sticky WHEN THE DEFINITION IS MADE IN THE DEPENDENCY LOADER: a failed lookup through it followed by
+    a definition in it makes the name resolvable -/
+theorem C12_dep_miss_then_define_partial (dps : List (Option Mods)) (s : Sys) (d : Nat) (mods : Mods) (n : Name) (v : V)
+    (hr : s.ps.getD d none = none) (hd : dps.getD d none = some mods) (hlen : d < s.es.length)
+    (ha : n.auth = runtimeAuthority) (hp : PartsOK mods n) (hfresh : lk (canon n) (s.ents d) = none)
+    (hmiss : depSpec s mods n = none) :
+    (runD dps s [.load d n, .define d n v]).2 = [.notfound, .ok] ∧
+    stepD dps (runD dps s [.load d n, .define d n v]).1 (.load d n) =
+      ((runD dps s [.load d n, .define d n v]).1, .found v) := by
+  obtain ⟨h1, h2⟩ := C12_dep_first dps s d mods n hr hd hlen ha hp hfresh
+  rw [hmiss] at h1 h2
+  have hl1 : d < (stepD dps s (.load d n)).1.es.length := by rw [stepD_length]; exact hlen
+  obtain ⟨d1, d2, _⟩ := define_unbound (stepD dps s (.load d n)).1 d n v hl1 h2
+  have hrun : runD dps s [.load d n, .define d n v] =
+      ((define (stepD dps s (.load d n)).1 d n v).1, [(stepD dps s (.load d n)).2, (define (stepD dps s (.load d n)).1 d n v).2]) := rfl
+  rw [hrun]
+  refine ⟨by simp only [h1, d1]; rfl, ?_⟩
+  apply C12_dep_cached dps _ d mods n v _ hd ha d2
+  have := step_ps (stepD dps s (.load d n)).1 (.define d n v)
+  simp only [step] at this
+  rw [this, stepD_ps]; exact hr
+
+/-- FULL STATEMENT (the property's sentence "a lookup answers …" read for a dependency loader without its cache): in
+    every state a history produces, a lookup through the dependency loader of a name it holds no value for answers what
+    the dependencies bind.  FALSE — see `C12_dep_miss_sticky`; proved part: `C12_dep_first` (no entry at all for the
+    name: the first lookup) and `C12_dep_miss_then_define_partial`; missing: the case of a cached miss. -/
+def C12_dep_load_full : Prop :=
+  ∀ (ps : List (Option Nat)) (dps : List (Option Mods)) (ops : List Op) (d : Nat) (mods : Mods) (n : Name),
+    depShapeOK ps dps = true → dps.getD d none = some mods → n.auth = runtimeAuthority → PartsOK mods n →
+    bound (runD dps (Sys.init ps) ops).1 d (canon n) = none →
+    (stepD dps (runD dps (Sys.init ps) ops).1 (.load d n)).2 = ansOf (depSpec (runD dps (Sys.init ps) ops).1 mods n)
+
+/-- FULL STATEMENT of "discovery = the union over the dependencies": every name a dependency binds is discovered
+    through the dependency loader.  FALSE — `C12_dep_discover_unloaded`; what holds is `C12_dep_discover`. -/
+def C12_dep_discover_union_full : Prop :=
+  ∀ (ps : List (Option Nat)) (dps : List (Option Mods)) (ops : List Op) (d : Nat) (mods : Mods) (n : Name) (ks : List Key),
+    depShapeOK ps dps = true → dps.getD d none = some mods → PartsOK mods n →
+    (depSpec (runD dps (Sys.init ps) ops).1 mods n).isSome = true →
+    (stepD dps (runD dps (Sys.init ps) ops).1 (.discover d fun _ => true)).2 = .keys ks → canon n ∈ ks
+
+/-! #### non-vacuity: root 0, the modules 1 (`m`) and 2 (`n`) parented on it, the dependency loader 3 over them, its child 4 -/
+
+def depPs : List (Option Nat) := [none, some 0, some 0, none, some 3]
+def depMods : Mods := [("m", 1), ("n", 2)]
+def depDps : List (Option Mods) := [none, none, none, some depMods, none]
+def nMq : Name := ⟨runtimeAuthority, "type", "M::q"⟩
+def nBad : Name := ⟨runtimeAuthority, "type", "m::1q"⟩
+/-- `b` bound in both modules, `M::q` in the wrong one only, `a` in the root, `A` (= `a`) in the child of the dependency loader -/
+def depSample : Sys :=
+  (runD depDps (Sys.init depPs)
+    [.define 1 nb (.ty 1), .define 2 nb (.ty 2), .define 2 nMq (.ty 4), .define 0 na (.ty 5), .define 4 nA (.ty 6)]).1
+
+example : depShapeOK depPs depDps = true ∧ DepChain depDps (chain depSample.ps 4) 3 depMods ∧
+    DepChain depDps (chain depSample.ps 3) 3 depMods ∧ PartsOK depMods nMq ∧ PartsOK depMods nb ∧ ¬ PartsOK depMods nBad := by
+  decide +kernel
+-- C12_dep_first: dependency order (module 1 before 2), the named module alone for a qualified name, a root's binding
+-- through a module
+example : depSpec depSample depMods nb = some (.ty 1) ∧ (stepD depDps depSample (.load 3 nb)).2 = .found (.ty 1) ∧
+    lk (canon nb) (depSample.ents 3) = none ∧
+    depSpec depSample depMods nMq = none ∧ (stepD depDps depSample (.load 3 nMq)).2 = .notfound ∧
+    depSpec depSample depMods nA = some (.ty 5) := by decide +kernel
+-- C12_dep_load / C12_dep_fill through the child: the lazy binding of the ancestor wins over the child's own binding
+example : (stepD depDps depSample (.load 4 na)).2 = .found (.ty 5) ∧ bound depSample 4 (canon na) = some (.ty 6) ∧
+    bound (stepD depDps depSample (.load 4 na)).1 3 (canon na) = some (.ty 5) ∧ bound depSample 3 (canon na) = none := by
+  decide +kernel
+-- C12_dep_cached / C12_dep_stable: once `b` is bound in 3, a binding gained by the modules' root does not change the answer
+example : (runD depDps depSample [.load 3 nb, .define 0 nb (.ty 9), .load 1 nb, .load 3 nb]).2 =
+    [.found (.ty 1), .ok, .found (.ty 9), .found (.ty 1)] := by decide +kernel
+-- C12_dep_invalid_name
+example : (stepD depDps depSample (.load 4 nBad)).2 = .reported "PCORE_INVALID_CHARACTERS_IN_NAME" ∧
+    (stepD depDps depSample (.load 4 nBad)).1.es = depSample.es ∧ lk (canon nBad) (depSample.ents 3) = none := by
+  decide +kernel
+-- C12_dep_miss_then_define_partial: its hypotheses hold for a name nobody binds
+example : lk (canon nMq) (depSample.ents 3) = none ∧ depSpec depSample depMods nMq = none ∧
+    (runD depDps depSample [.load 3 nMq, .define 3 nMq (.ty 8), .load 3 nMq]).2 = [.notfound, .ok, .found (.ty 8)] := by
+  decide +kernel
+-- C12_dep_other: the modules and the root are plain loaders
+example : ∀ a ∈ chain depSample.ps 2, depDps.getD a none = none := by decide +kernel
+
+/-- MISSES ARE STICKY THROUGH A DEPENDENCY LOADER (known finding C12-dependency-miss-sticky): after a failed lookup
+    through it, a definition in one of its modules does not make the name resolvable through it — the module itself
+    resolves the name, the specification `depSpec` says found, the dependency loader answers its cached miss -/
+theorem C12_dep_miss_sticky : ¬ C12_dep_load_full := by
+  intro h
+  have := h depPs depDps [.load 3 nb, .define 1 nb (.ty 1)] 3 depMods nb (by decide +kernel) rfl rfl (by decide +kernel)
+    (by decide +kernel)
+  revert this
+  decide +kernel
+
+/-- the history of `C12_dep_miss_sticky`, answer by answer, and the same history with the definition FIRST -/
+theorem C12_dep_miss_sticky_history :
+    (runD depDps (Sys.init depPs) [.load 3 nb, .define 1 nb (.ty 1), .load 1 nb, .load 3 nb, .has 3 nb]).2 =
+      [.notfound, .ok, .found (.ty 1), .notfound, .bool false] ∧
+    (runD depDps (Sys.init depPs) [.define 1 nb (.ty 1), .load 3 nb, .has 3 nb]).2 = [.ok, .found (.ty 1), .bool true] := by
+  decide +kernel
+
+/-- discovery through a dependency loader is NOT the union over its dependencies: a name bound in a module is discovered
+    (and `HasEntry` says so) only after it was looked up through the dependency loader -/
+theorem C12_dep_discover_unloaded : ¬ C12_dep_discover_union_full := by
+  intro h
+  have := h depPs depDps [.define 1 nb (.ty 1)] 3 depMods nb [] (by decide +kernel) rfl (by decide +kernel)
+    (by decide +kernel) (by decide +kernel)
+  revert this
+  decide +kernel
+
+theorem C12_dep_discover_history :
+    (runD depDps (Sys.init depPs) [.define 1 nb (.ty 1), .discover 3 (fun _ => true), .has 3 nb, .load 3 nb,
+      .discover 3 (fun _ => true), .has 4 nb]).2 =
+      [.ok, .keys [], .bool false, .found (.ty 1), .keys [canon nb], .bool true] := by decide +kernel
 
 /-! ### the defects that were repaired, as witnesses on the pre-fix definitions -/
 
